@@ -69,7 +69,7 @@ def election_candidates(case):
                     c = copy.deepcopy(case)
                     c['options'][k] = v2
                     yield c
-    for key in ('names', 'nicks', 'file_options', 'layout'):
+    for key in ('names', 'nicks', 'file_options', 'layout', 'comment', 'source'):
         if case.get(key):
             c = copy.deepcopy(case)
             c[key] = None
